@@ -374,8 +374,12 @@ impl<'a, T: Recognizer<'a>> ErrorListener<'a, T> for ParserErrorListener {
         _error: Option<&ANTLRError>,
     ) {
         match offending_symbol {
+            // Leading whitespace is reported as an extraneous token that the parser simply
+            // skips; that report is noise. Any other error at a whitespace token (e.g. a
+            // source consisting of blanks only) is a real one and must not be lost.
             Some(offending_symbol)
-                if offending_symbol.get_token_type() == gen::cellexer::WHITESPACE => {}
+                if offending_symbol.get_token_type() == gen::cellexer::WHITESPACE
+                    && msg.starts_with("extraneous input") => {}
             _ => self.parse_errors.borrow_mut().push(ParseError {
                 source: None,
                 pos: (line, column + 1),
